@@ -212,6 +212,18 @@ Proof.
     split; [exact (scalar_of_line_quote "    - name: " n)|]. intros x Hx. discriminate.
 Qed.
 
+(* ... and the unit of a field that has one (third line of its block), whatever characters it contains *)
+Lemma header_unit_recoverable : forall O f u l,
+  field_lines O f (Some u) = Ok l ->
+  obind (nth_error l 2) (scalar_of_line "      unit: ") = Some u.
+Proof.
+  intros O f u l H. unfold field_lines in H.
+  destruct (fname f) as [[| n | | | |]|]; try discriminate.
+  destruct (match ffill f with Some v => t <- fill_text O v ;; Ok ["      fill: " ++ t] | None => Ok [] end) as [fl|e]; [|discriminate].
+  cbn [bind] in H. injection H as H. subst l. cbn [unit_lines app nth_error obind].
+  exact (scalar_of_line_quote "      unit: " u).
+Qed.
+
 (* non-vacuity and the shape of the written text, by computation: apostrophes, a 4-byte UTF-8 sequence
    (U+1F600), NEL (U+0085 = C2 85), the empty string *)
 Definition hdrO : oracles :=
@@ -227,6 +239,6 @@ Lemma header_examples :
       (Some [mkField (Some (YStr "x")) None (Some (YStr "")); mkField (Some (YStr "y")) (Some "integer") (Some (YInt 0))]))
       [Some "km"; None] =
     Ok ["# c"; "schema:"; "  delimiter: ','"; "  missing: 'n''a'"; "  fields:";
-        "    - name: 'x'"; "      type: string"; "      unit: km"; "      fill: ''";
+        "    - name: 'x'"; "      type: string"; "      unit: 'km'"; "      fill: ''";
         "    - name: 'y'"; "      type: integer"; "      fill: 0"].
 Proof. repeat split; vm_compute; reflexivity. Qed.
